@@ -121,10 +121,14 @@ def run_scenario(prop: str, seed: int, run: int, profile: dict, doc=None) -> Run
 
 
 # ------------------------------------------------------------------ scenarios
-def _seq(basis, n_atoms=1, spacing=60.0, eom=False, clock=1):
+def _seq(basis, n_atoms=1, spacing=60.0, eom=False, clock=1, pjt=None):
     from pulser import Sequence
 
-    dev = W.build_device(_device(bases=(basis,), eom=eom, clock=clock))
+    spec = _device(bases=(basis,), eom=eom, clock=clock)
+    if pjt is not None:
+        for c in spec["channels"]:
+            c["custom_phase_jump_time"] = pjt
+    dev = W.build_device(spec)
     ids = ["a", "b", "c"][:n_atoms]
     reg = W.build_register({"ids": ids, "coords": [[k * spacing, 0.0] for k in range(n_atoms)], "dim": 2})
     return Sequence(reg, dev), ids
@@ -435,6 +439,11 @@ def gen_ramsey(rng):
         "omega": round(rng.uniform(3.0, 12.0), 4),
         "gap": G.pick(rng, [0, 16, 100]),
         "local": rng.random() < 0.5,
+        # a channel with a phase-jump time; a leading 2 pi pulse (identity); the
+        # closing pulse placed right at the channel's end
+        "pjt": G.pick(rng, [None, None, 40]),
+        "lead": rng.random() < 0.4,
+        "proto": G.pick(rng, ["min-delay", "min-delay", "no-delay"]),
     }
 
 
@@ -442,7 +451,7 @@ def run_ramsey(p, stats):
     from pulser import Pulse
     from pulser_simulation import QutipEmulator
 
-    seq, ids = _seq(p["basis"], 2, 300.0)
+    seq, ids = _seq(p["basis"], 2, 300.0, pjt=p.get("pjt"))
     g, l = BASIS_CH[p["basis"]]
     if p["local"]:
         seq.declare_channel("ch", l, initial_target="a")
@@ -454,6 +463,9 @@ def run_ramsey(p, stats):
     half = Pulse.ConstantPulse(t, om, 0.0, 0.0)
     mech = p["mechanism"]
     basis = p["basis"]
+    if p.get("lead"):
+        seq.add(Pulse.ConstantPulse(4 * t, om, 0.0, 0.0), "ch")
+        stats["probe/ramsey_with_leading_pulse"] += 1
     if mech == "post_phase_shift":
         seq.add(Pulse.ConstantPulse(t, om, 0.0, 0.0, post_phase_shift=p["phi"]), "ch")
     else:
@@ -472,7 +484,7 @@ def run_ramsey(p, stats):
             seq.phase_shift(p["phi"], *targets, basis=basis)
     if p["gap"]:
         seq.delay(p["gap"], "ch")
-    seq.add(half, "ch")
+    seq.add(half, "ch", p.get("proto", "min-delay"))
     res = QutipEmulator.from_sequence(seq).run()
     got = _pop_one(res, basis, 0, 2)
     # two pi/2 pulses about axes differing by phi: P = cos^2(phi/2)
